@@ -600,3 +600,41 @@ Example close_local_nonvacuous :
   map (fun s => (sstate_code (st s), closed s, buf s)) (objs m) = [(4, true, []); (1, false, [7])] /\
   mmap m = [(2, 1%nat)].
 Proof. vm_compute. split; reflexivity. Qed.
+
+(* ------------------------------------------------------------------------- *)
+(** * Data before end-of-stream at the receiving endpoints *)
+
+Fixpoint xdata (l : list xev) : list N :=
+  match l with XGot d :: t => d :: xdata t | _ :: t => xdata t | [] => [] end.
+
+(** if some frame carries FIN, the destination sees exactly the data of the
+    frames up to and including that frame, in order, and then end-of-stream *)
+Theorem endpoint_data_before_eof : forall fs want,
+  data_upto_fin fs = Some want ->
+  endpoint_receive fs = map XGot want ++ [XEof].
+Proof.
+  induction fs as [|[fin d] fs IH]; intros want H; simpl in H; [discriminate|].
+  unfold endpoint_receive; fold endpoint_receive. unfold endpoint_on_data. simpl.
+  destruct fin.
+  - inversion H; subst. destruct (d =? 0); simpl; reflexivity.
+  - destruct (data_upto_fin fs) as [l|] eqn:E; [|discriminate]. inversion H; subst.
+    rewrite (IH l eq_refl). destruct (d =? 0); simpl; rewrite ?app_nil_r; reflexivity.
+Qed.
+
+(** without a FIN frame no end-of-stream is signalled and nothing is lost *)
+Theorem endpoint_no_fin_no_eof : forall fs,
+  data_upto_fin fs = None ->
+  ~ In XEof (endpoint_receive fs) /\ xdata (endpoint_receive fs) = concat (map (fun f => if snd f =? 0 then [] else [snd f]) fs).
+Proof.
+  induction fs as [|[fin d] fs IH]; intros H; simpl in *; [split; auto|].
+  destruct fin; [discriminate|].
+  destruct (data_upto_fin fs) eqn:E; [discriminate|]. destruct (IH eq_refl) as [H1 H2].
+  unfold endpoint_on_data. simpl. destruct (d =? 0); simpl; rewrite ?app_nil_r; split; auto.
+  - intros [Hx|Hx]; [discriminate | auto].
+  - f_equal. auto.
+Qed.
+
+Example endpoint_nonvacuous :
+  endpoint_receive [(false, 5); (true, 6); (false, 7)] = [XGot 5; XGot 6; XEof] /\
+  endpoint_receive [(false, 5); (true, 0)] = [XGot 5; XEof].
+Proof. vm_compute. split; reflexivity. Qed.
